@@ -31,7 +31,8 @@ func NewBufferedFile(file *os.File, fileSize int64) *BufferedFile {
 	}
 
 	bytesRead, err := bufferedFile.file.Read(bufferedFile.buffer)
-	if err != nil {
+	// an empty file reports io.EOF on the first read: that is an empty window, not a failure
+	if err != nil && err != io.EOF {
 		panic(err)
 	}
 	bufferedFile.maxOffset = int64(bytesRead)
